@@ -88,6 +88,23 @@ VARIANTS = [
      "old": "if len(self.injections) == self.injections.maxlen:", "new": "if len(self.injections) >= self._maxlen:"},
     {"name": "P R4 comparison mirrored", "file": CIRC, "expect": "silent",
      "old": "if len(self.injections) == self.injections.maxlen:", "new": "if self.injections.maxlen == len(self.injections):"},
+    # ------------------------------------------------------------------ R5
+    {"name": "R5 retransmissions are translated but not tracked", "file": CIRC, "expect": "C04.R5",
+     "old": "            fwd_injections.track_seen(message.packet_id)\n",
+     "new": "            if not message.resent:\n                fwd_injections.track_seen(message.packet_id)\n"},
+    {"name": "R5 the endpoint's own ID is tracked instead of the wire ID", "file": CIRC, "expect": "C04.R5",
+     "old": "            message.packet_id = fwd_injections.get_effective_id(message.packet_id)\n            fwd_injections.track_seen(message.packet_id)\n",
+     "new": "            fwd_injections.track_seen(message.packet_id)\n            message.packet_id = fwd_injections.get_effective_id(message.packet_id)\n"},
+    {"name": "R5 wire ID tracked on the reverse tracker", "file": CIRC, "expect": "C04.R5",
+     "old": "            fwd_injections.track_seen(message.packet_id)\n", "new": "            reverse_injections.track_seen(message.packet_id)\n"},
+    {"name": "P R5 wire ID computed into a local first", "file": CIRC, "expect": "silent",
+     "old": "            message.packet_id = fwd_injections.get_effective_id(message.packet_id)\n            fwd_injections.track_seen(message.packet_id)\n",
+     "new": "            wire_id = fwd_injections.get_effective_id(message.packet_id)\n            message.packet_id = wire_id\n"
+            "            fwd_injections.track_seen(wire_id)\n"},
+    {"name": "P R5 tracking moved after the ack rewrite", "expect": "silent", "edits": [
+        {"file": CIRC, "old": "            fwd_injections.track_seen(message.packet_id)\n", "new": ""},
+        {"file": CIRC, "old": "            if message.name == \"PacketAck\":\n                if not self._rewrite_packet_ack",
+         "new": "            fwd_injections.track_seen(message.packet_id)\n            if message.name == \"PacketAck\":\n                if not self._rewrite_packet_ack"}]},
     # ------------------------------------------------------------------ documented limits
     {"name": "X forward shift boundary < -> <= (value-level)", "file": CIRC, "expect": "miss",
      "old": "if new_id < packet_id and new_id not in self.injections:", "new": "if new_id <= packet_id and new_id not in self.injections:"},
